@@ -159,6 +159,81 @@ theorem store_entries_roundtripU {clW clR clBits : List Nat} {symBits : Nat → 
     (d.length + 1) rest hvalid (by omega) hpre (by rw [hout]; exact hl) (by rw [hout]; exact hkt)
   rw [this, hout, trim_pad]
 
+theorem trim_getD (d : List Nat) (i : Nat) (h : i < (trimTrailingZeros d).length) :
+    (trimTrailingZeros d).getD i 0 = d.getD i 0 := by
+  conv => rhs; rw [← trim_pad d]
+  rw [List.getD_eq_getElem?_getD, List.getD_eq_getElem?_getD, List.getElem?_append_left h]
+
+/-- a vector that is zero from `A` on has its non-zero part within `A` -/
+theorem trim_length_le_of_zeros (d : List Nat) (A : Nat)
+    (hz : ∀ i, A ≤ i → i < d.length → d.getD i 0 = 0) : (trimTrailingZeros d).length ≤ A := by
+  by_cases hne : trimTrailingZeros d = []
+  · rw [hne]; exact Nat.zero_le _
+  · by_cases hle : (trimTrailingZeros d).length ≤ A
+    · exact hle
+    · exfalso
+      have hlast := trim_last d hne
+      have hl := trim_length_le d
+      have hpos : 0 < (trimTrailingZeros d).length := List.length_pos_iff.mpr hne
+      have hg := trim_getD d ((trimTrailingZeros d).length - 1) (by omega)
+      rw [hz _ (by omega) (by omega)] at hg
+      apply hlast
+      rw [List.getLast_eq_getElem]
+      have : (trimTrailingZeros d).getD ((trimTrailingZeros d).length - 1) 0
+          = (trimTrailingZeros d)[(trimTrailingZeros d).length - 1]'(by omega) := by
+        rw [List.getD_eq_getElem?_getD, List.getElem?_eq_getElem (by omega)]; rfl
+      rw [← this]; exact hg
+
+theorem trim_take (d : List Nat) (A : Nat) (hA : A ≤ d.length)
+    (hz : ∀ i, A ≤ i → i < d.length → d.getD i 0 = 0) :
+    trimTrailingZeros d ++ List.replicate (A - (trimTrailingZeros d).length) 0 = d.take A := by
+  have hle := trim_length_le_of_zeros d A hz
+  have hl := trim_length_le d
+  conv => rhs; rw [← trim_pad d]
+  rw [List.take_append, List.take_of_length_le hle, List.take_replicate]
+  congr 2
+  omega
+
+/-- entry-level round trip read with an alphabet size `A` that may be smaller than
+the vector (whose entries from `A` on are zero) -/
+theorem store_entries_roundtripA {clW clR clBits : List Nat} {symBits : Nat → List Bool}
+    {used : Nat → Prop} (hc : SymIO clW clR clBits symBits used) (d : List Nat) (A : Nat)
+    (hd : ∀ x ∈ d, x ≤ 15) (hlen : d.length < 2 ^ 64) (hk : kraftSum 15 d = 32768)
+    (hA : A ≤ d.length) (hz : ∀ i, A ≤ i → i < d.length → d.getD i 0 = 0)
+    (useNZ useZ : Bool)
+    (hvalid : ∀ e ∈ writeHuffmanTreeWith useNZ useZ d, ValidEntryU used e) (w rest : List Bool) :
+    storeHuffmanTreeToBitMask clW clBits (writeHuffmanTreeWith useNZ useZ d) w
+        = .ok (w ++ ((writeHuffmanTreeWith useNZ useZ d).map (entryBitsU symBits)).flatten) ∧
+      readLensGo clR A (A + 1) ⟨[], 8, none⟩
+        (((writeHuffmanTreeWith useNZ useZ d).map (entryBitsU symBits)).flatten ++ rest)
+        = some (d.take A, rest) := by
+  refine ⟨storeEntriesU hc _ w hvalid, ?_⟩
+  have hd' : ∀ x ∈ trimTrailingZeros d, x < 16 :=
+    trim_lt d (fun x hx => Nat.lt_succ_of_le (hd x hx))
+  have hl := trim_length_le d
+  have hlA := trim_length_le_of_zeros d A hz
+  have hrt := writeLoop_roundtrip useNZ useZ _ (trimTrailingZeros d) rfl
+    (by unfold u64; omega) hd' 8 ⟨[], 8, none⟩ rfl (by intro x _; rfl)
+  have hout : (run ⟨[], 8, none⟩ (writeHuffmanTreeWith useNZ useZ d)).out = trimTrailingZeros d := by
+    simpa [writeHuffmanTreeWith] using hrt
+  have hkt : kraftSum 15 (trimTrailingZeros d) = 32768 := by rw [kraftSum_trim]; exact hk
+  have hne : trimTrailingZeros d ≠ [] := by
+    intro h; rw [h] at hkt; simp [kraftSum] at hkt
+  have hwl := writeLoop_length useNZ useZ _ (trimTrailingZeros d) rfl (by unfold u64; omega) 8
+  have hElen : (writeHuffmanTreeWith useNZ useZ d).length ≤ A := by
+    unfold writeHuffmanTreeWith; omega
+  have hwf : WF ⟨[], 8, none⟩ := fun v c h => by simp at h
+  have hpre := prefix_conditions (writeHuffmanTreeWith useNZ useZ d) ⟨[], 8, none⟩ hwf A
+    (by rw [hout]; exact hne)
+    (by
+      have := trim_last d hne
+      simpa [hout] using this)
+    (by rw [hout]; intro x hx; have := hd' x hx; omega)
+    (by rw [hout]; exact hlA) (by rw [hout]; exact hkt)
+  have := readEntriesU hc A (writeHuffmanTreeWith useNZ useZ d) ⟨[], 8, none⟩
+    (A + 1) rest hvalid (by omega) hpre (by rw [hout]; exact hlA) (by rw [hout]; exact hkt)
+  rw [this, hout, trim_take d A hA hz]
+
 /-- the ordinary code-length code as a symbol I/O -/
 theorem symIO_of_clCode (cl clBits : List Nat) (hc : ClCode cl clBits) :
     SymIO cl cl clBits (fun s => bitsOf (cl.getD s 0) (clBits.getD s 0))
